@@ -10,3 +10,5 @@ import HealSparse.Props.C13
 #print axioms HS.C13.ops_preserve_isRow
 #print axioms HS.C13.check_bits_spec
 #print axioms HS.C13.valid_iff_nonempty
+#print axioms HS.C13.reject_big_bit
+#print axioms HS.C13.reject_big_bit_operator
